@@ -45,8 +45,10 @@ Definition ok : cbor := ctext "ok".
 Definition spec_emitted (inner : bytes) : bytes := [216; 24] ++ head 2 (blen inner) ++ inner.
 
 (* the view of an item per the data model: the decoded map's four members, looked up by text key *)
+(* tags in front of the map (e.g. the self-described-CBOR tag 55799) do not change which item the bytes hold *)
+Fixpoint untag (c : cbor) : cbor := match c with CTag _ x => untag x | _ => c end.
 Definition spec_item_view (inner : bytes) : option cbor :=
-  match decode_first inner with
+  match option_map untag (decode_first inner) with
   | Some (CMap kvs) =>
     match map_get (tx "digestID") kvs, map_get (tx "random") kvs,
           map_get (tx "elementIdentifier") kvs, map_get (tx "elementValue") kvs with
@@ -91,7 +93,14 @@ Fixpoint entries_until_lenient (fuel : nat) (bs : bytes) : dres (list (bytes * c
            '(es, r'') <- entries_until_lenient f r' ;; DOk ((k, v) :: es, r'')
     end
   end.
-Definition read_item_lenient (bs : bytes) : option item :=
+(* tags in front of the struct map are skipped, as the struct reader does *)
+Fixpoint skip_tags (fuel : nat) (bs : bytes) : bytes :=
+  match fuel with
+  | O => bs
+  | S f => match read_head bs with DOk (6, _, HVal _, r) => skip_tags f r | _ => bs end
+  end.
+Definition read_item_lenient (bs0 : bytes) : option item :=
+  let bs := skip_tags (fuel_for bs0) bs0 in
   match read_head bs with
   | DOk (5, _, HVal n, r) =>
     match entries_n_lenient (fuel_for bs) n r with DOk (es, _) => item_of_entries es | _ => None end
@@ -127,7 +136,8 @@ Fixpoint heads_until (fuel : nat) (bs : bytes) : dres (list (bytes * (N * harg))
            hs <- heads_until f r' ;; DOk ((k, h) :: hs)
     end
   end.
-Definition top_heads (bs : bytes) : list (bytes * (N * harg)) :=
+Definition top_heads (bs0 : bytes) : list (bytes * (N * harg)) :=
+  let bs := skip_tags (fuel_for bs0) bs0 in
   match read_head bs with
   | DOk (5, _, HVal n, r) => match heads_n (fuel_for bs) n r with DOk l => l | _ => [] end
   | DOk (5, _, HIndef, r) => match heads_until (fuel_for bs) r with DOk l => l | _ => [] end
